@@ -316,7 +316,8 @@ pub fn c17_case(ae: &Option<String>, level: u32, chunk: usize, method: &str, as_
         x.write_op(payload_len, true);
         x.flush_op();
         x.drop_writer();
-        x.poll_until_pending(10_000);
+        let hz = x.frame_horizon();
+        x.poll_until_pending(hz);
         let body = x.delivered.clone();
         let clean = matches!(x.terminal_seen, Some(Obs::End));
         if !clean {
